@@ -14,15 +14,13 @@ Local Open Scope num_scope.
 Section FModel.
 Context {T : Type} `{Num T}.
 Variable rt : T -> T.       (* square root *)
-(* variant switches, measured on the code at run time (both values are proved sound under [fok]):
-   rzv: RosenbrockFunctional.gradient divides the partial derivatives by the weights (proposed repair)
-        instead of returning them as they are (current source);
+(* variant switch, measured on the code at run time (both values are proved sound under [fok]):
    mav: MatrixOperator.adjoint is the true adjoint  W^-1 M^T W'  between weighted spaces (the repair
         asked of C05) instead of the plain transpose (current source) *)
-Variable rzv mav : bool.
+Variable mav : bool.
 
-(* RosenbrockFunctional(space, scale=c):  sum_i c (x_{i+1} - x_i^2)^2 + (x_i - 1)^2  and its gradient
-   (the vector of partial derivatives; the code does not look at the weighting) *)
+(* RosenbrockFunctional(space, scale=c):  sum_i c (x_{i+1} - x_i^2)^2 + (x_i - 1)^2  and the vector of
+   its partial derivatives (the gradient divides it by the weights of the space: `out /= _weights()`) *)
 Fixpoint rosen (c : T) (x : list T) : T :=
   match x with
   | a :: ((b :: _) as r) => c * ((b - a * a) * (b - a * a)) + (a - none_) * (a - none_) + rosen c r
@@ -84,8 +82,7 @@ Definition all_one (w : list T) : bool := forallb (fun a => a =? none_) w.
 Definition all_nz (w : list T) : bool := forallb (fun a => negb (a =? nzero)) w.
 Fixpoint fok (w : list T) (f : fexpr) : bool :=
   match f with
-  | FRosen _ _ => (rzv && all_nz w) || all_one w
-      (* the unrepaired gradient ignores the weighting: right only on unweighted spaces *)
+  | FRosen _ _ => all_nz w        (* partial derivatives / weights: weights must be non-zero *)
   | FL2Sq _ | FL2 _ | FL1 _ | FConst _ _ => true
   | FLScal f _ | FRScal f _ | FScalarSum f _ | FTransl f _ | FQP f _ _ _ | FRVec f _ => fok w f
   | FSum f g | FProd f g | FQuot f g => fok w f && fok w g
@@ -121,7 +118,7 @@ Fixpoint mtvec (n : nat) (rows : list (list T)) (g : list T) : list T :=
 (* the element f.gradient(x) *)
 Fixpoint fgrad (w : list T) (f : fexpr) (x : list T) : list T :=
   match f with
- | FRosen _ c => if rzv then vdiv (rgrad c x) w else rgrad c x
+  | FRosen _ c => vdiv (rgrad c x) w
   | FL2Sq _ => vscal (of_Z 2) x                                   (* ScalingOperator(2) *)
   | FL2 _ => let nrm := rt (wdot w x x) in
              if nrm =? nzero then vconst (length x) nzero else map (fun a => a / nrm) x
